@@ -29,9 +29,9 @@ P("C06", "sshd", "Lean 4 proof (greedy leftmost-first regex semantics; forced-sp
 P("C07", "sshd", "Lean 4 algebraic law (Split/Join/TrimLeft round trip) + differential correspondence direct vs framed (callback and FIFO)",
   "Theorem C07.framed_eq_direct: for every PID token without blank/newline, non-empty blank padding and message without newline that does not start with a blank, processing the framed record '<pid><pad><msg>\\n' through the syslog ingester model equals processing (pid, msg) directly; internal spacing is preserved. Theorem C07.audit_trim for audit lines. Correspondence: every generated message once directly, once framed through the real SyslogIngester.Process and (thorough) a real FIFO.",
   "auparse.ParseLogLine is abstract (trims surrounding space).", "5 C07")
-P("C08", "workers", "Lean 4 proof over worker automata instantiated from extracted blocking facts + fault injection on the real workers and the built daemon",
-  "Theorems C08.*: every worker return carries a non-nil error (extracted), the first error cancels the group, and from every reachable state with the group cancelled every worker reaches 'returned' within a bounded number of its own steps for every buffer capacity and occupancy (C13 composed), so Wait returns non-nil and main exits non-zero. Blocking facts (select-with-ctx around every send/receive, raced open, closer goroutine, no nil returns) are regenerated from source; the harness puts the real workers into each blocking state and injects each failure cause; thorough tier runs the built binary under load.",
-  "partial: process exit, signals, wall-clock bounds and kernel FIFO behaviour are runtime assumptions exercised, not proved.", "5 C08")
+P("C08", "workers", "Lean 4 proof over the worker automata and the errgroup composition, instantiated from blocking facts regenerated from source + fault injection into the daemon built from the working tree",
+  "Theorems C08.no_silent_exit / cause_cancels / group_stops / failing_processor_returns / exit_nonzero / fail_stop_now: no worker function can return nil; every failure cause (pipe EOF or error, unparsable audit line, write failure, invalid login, path not a FIFO, SIGTERM/SIGINT) leaves the group's context cancelled; in every cancelled state, whatever each worker is doing and for EVERY capacity and occupancy of the line buffer, each worker's own steps lead it to return without any help from its peers or the pipe writers, so eg.Wait returns and main ends in log.Fatal. The facts (select arms, closer Go routine, raced open, join, return nil, eg.Go count, Wait's error returned, log.Fatal) are re-extracted from the source on every run and C13.gen_good re-checks them. Correspondence: the daemon binary built from the working tree, every cause at idle and under sustained audit load, exit status and time to exit observed.",
+  "partial: process exit, signal delivery and wall-clock bounds are runtime behaviour the model cannot exhibit (exercised on the binary: exit within 5 s); select fairness and Close-unblocks-Read are assumptions. The automata are hand-written; their tie to the code is the extracted facts plus the daemon runs.", "5 C08")
 P("C09", "tracker", "Lean 4 step lemmas (ended sessions leave the table; logins only touch present sessions) + differential correspondence with PID reuse",
   "Theorems C09.ended_gone / flushed_gone / absent_session_silent / late_record_ignored: once the disposal record is emitted directly or released by a late login the session is erased, a login only ever binds to a session present in the table with its PID, and a stray record of an absent session changes nothing. Correspondence on histories that reuse a PID after the earlier use ended, for every arrival order of the earlier login; Spec.C09 (pairing of the k-th login with the k-th session of a PID, identity and completeness) judged on implementation observations.",
   "the pairing-by-order statement itself is checked by correspondence (Spec.C09), the theorems give its step-level core.", "5 C09")
@@ -44,9 +44,9 @@ P("C11", "sshd", "Lean 4 proofs for all byte strings + differential corresponden
 P("C12", "pipe", "Lean 4 proof of chunking independence + differential correspondence over a real FIFO",
   "Theorems C12.chunk_independent / tail / error / eof: feeding any partition of a byte stream delivers exactly the delimiter-terminated records of the concatenation, once, in order; bytes after the last delimiter are never delivered; delivery stops at the first callback error which is returned; EOF is an error. Correspondence: real NamedPipeIngester.Ingest over mkfifo with random write partitions, records beyond the bufio buffer, callback error at each index.",
   "partial: kernel read boundaries are arbitrary by assumption; bufio.Reader.ReadString modelled.", "5 C12")
-P("C13", "workers", "Lean 4 proof over worker automata instantiated from extracted blocking facts + cancellation injected in each blocking state of the real workers",
-  "Theorems C13.*: for each worker and each blocking state (open, idle read, hand-off to unready correlator, full downstream buffer of any capacity) cancellation leads to return within 3 own steps and nothing is delivered after return. Blocking facts regenerated from source; harness puts real workers in each state with capacities 0/1/4 and measures return and late deliveries.",
-  "partial: wall-clock bounds are runtime; 'own steps take bounded time' is an assumption exercised by stop-watch.", "5 C13")
+P("C13", "workers", "Lean 4 proof over worker automata instantiated from blocking facts regenerated from source (for every buffer capacity and occupancy) + cancellation injected in each blocking state of the real workers",
+  "Theorems C13.gen_good / ingester_stops / processor_stops / nothing_after_return / ingester_returns_error (+ necessity: bare_send_stuck, no_closer_stuck, blocking_open_stuck, no_join_delivers_late): with the facts of the current source, both pipe ingesters return within 3 own steps from each blocking state (waiting for a writer, reading an idle pipe, handing a record downstream) for EVERY capacity and occupancy, the audit processor returns within 8 own steps from every state of its Go routines and nothing is delivered after it returned; a returned worker has no further step. Correspondence: the real workers over real FIFOs and channels of capacities 0/1/4 (thorough: to 10000) empty, half full and full, cancelled in each state; return within 2 s, non-nil error, no delivery in the following 60 ms.",
+  "partial: wall-clock bounds, Close unblocking a pending FIFO read and select fairness are runtime assumptions (exercised). Automata hand-written; tie = extracted facts + per-state runs.", "5 C13")
 P("C14", "tracker", "Lean 4 rendering law + differential correspondence incl. the real parser/coalescer",
   "Theorem C14.render: toAuditEvent yields type UserAction, component auditd, the audit timestamp, auditId = session, outcome succeeded iff result = success, action/how/object and process_args iff present, and the login's identity content; C14.login_unchanged: no step alters a stored login. Correspondence at the tracker API over all results/argument counts and through the real auparse/reassembler/coalescer.",
   "aucoalesce is abstract in the model (the harness feeds the model the fields of the real coalesced event).", "5 C14")
@@ -76,6 +76,7 @@ ENGINES = [
     {"name": "health", "path": "lean/AM/Model/Health.lean", "serves_properties": ["C18"], "kind_free_text": "Lean model of internal/health; Go harness mode health (httptest)"},
     {"name": "pipe", "path": "lean/AM/Model/Pipe.lean", "serves_properties": ["C12"], "kind_free_text": "Lean model of NamedPipeIngester.Ingest over bufio.ReadString; Go harness mode pipe (real FIFO)"},
     {"name": "dirreader", "path": "lean/AM/Model/DirReader.lean", "serves_properties": ["C20"], "kind_free_text": "Lean model of the audit log directory reader; Go harness mode dir (in-memory fileSystem/fsWatcher shim)"},
+    {"name": "workers", "path": "lean/AM/Model/Workers.lean", "serves_properties": ["C08", "C13"], "kind_free_text": "Lean automata of the three pipeline workers and the errgroup, instantiated from AM/Gen/Facts.lean; Go harness modes workers (per-state cancellation) and daemon (built binary)"},
     {"name": "auditproc", "path": "lean/AM/Model/AuditProc.lean", "serves_properties": ["C15"], "kind_free_text": "Lean model of Auditd.Read (parser, reassembler, callback, error channels) around the tracker model; Go harness mode auditproc"},
 ]
 
